@@ -81,7 +81,12 @@ func (vc *FuncVC) Verify() (err error) {
 		if _, isFunc := p.Type().Underlying().(*types.Signature); isFunc && vc.specClosure != nil && vc.specClosureVal == nil {
 			cl := &ClosureVal{Fn: vc.specClosure}
 			for _, fv := range vc.specClosure.FreeVars {
-				cl.Bind = append(cl.Bind, vc.freshValue(st, "cfv."+fv.Name(), fv.Type()))
+				v := vc.freshValue(st, "cfv."+fv.Name(), fv.Type())
+				if t, ok := v.(Term); ok && t.Sort == SRef {
+					// captured variables live in cells that always exist
+					st.assume(And(Not(Eq(t, tNull)), Select(st.alloc, t)))
+				}
+				cl.Bind = append(cl.Bind, v)
 			}
 			vc.specClosureVal = cl
 			fr.regs[p] = cl
@@ -570,6 +575,11 @@ func (vc *FuncVC) loopEnv(st *State, li *loopInfo) *Env {
 	if fr.spec != nil && len(fr.spec.Params) > 0 {
 		for i, p := range fr.fn.Params {
 			if i < len(fr.spec.Params) {
+				if cl, isCl := fr.regs[p].(*ClosureVal); isCl {
+					// a contract specialised to this closure sees its captured variables by name
+					vc.bindClosureVars(env, st, cl)
+					continue
+				}
 				env.vars[fr.spec.Params[i]] = env.valueTV(fr.regs[p], p.Type())
 			}
 		}
@@ -1966,6 +1976,10 @@ func (vc *FuncVC) bindClosureVars(env *Env, st *State, cl *ClosureVal) {
 			val := vc.load(st, cl.Bind[i], pt.Elem())
 			st.pc = save
 			env.vars[fv.Name()] = env.valueTV(val, pt.Elem())
+			if env.refs == nil {
+				env.refs = map[string]refVar{}
+			}
+			env.refs[fv.Name()] = refVar{cl.Bind[i], pt.Elem()}
 		}()
 	}
 }
